@@ -311,3 +311,145 @@ def check_L26(ctx, rep, adaptor_scope, callee_scopes):
                          'the adaptor calls this merge with a fresh default delta and an occupied total when a key receives tuples again after a pause '
                          '(%s); the assertion `%s` then fails: run() panics' % (sites[0][0].split(' as ')[0][:80], (cond.get('snip') or '')[:60]), loc=cr.loc(x))
     return n
+
+
+# ------------------------------------------------------------------ L28 / L29
+
+_ID_SOURCES = {'elem_set', 'elem_set_update', 'get_dominant_id', 'get_dominant_id_mut', 'get_dominant_id_update', 'add_node', 'add_node_new'}
+
+
+def _self_field_root(e, self_id):
+    """first field below `self` of a place / receiver chain rooted in self (None otherwise)"""
+    fld = None
+    e = strip(e)
+    while True:
+        e = strip(e)
+        k = e.get('k')
+        if k == 'field':
+            fld = e['n']; e = e['e']; continue
+        if k in ('addr', 'cast', 'index'):
+            e = e['e']; continue
+        if k == 'unary' and e['op'] == 'deref':
+            e = e['e']; continue
+        if k == 'mcall':
+            e = e['r']; continue
+        if k == 'match' and e.get('src') in ('try', '?'):
+            e = e['e']; continue
+        if k == 'call' and e.get('a'):
+            e = e['a'][0]; continue
+        if k == 'path' and e.get('res') == 'local' and e['id'] == self_id:
+            return fld
+        return None
+
+
+def check_L28(ctx, rep, modules):
+    """class ids are relative to the union-find they come from: an id obtained from one union-find field of a structure
+    (`self.combined.elem_set(x)`) must not index the class table (`.sets`) of another one (`self.old.sets[id]`) - the two agree
+    only until classes that both already knew are united."""
+    cr = ctx.lib('ascent_byods_rels')
+    n = 0
+    for path, b in sorted(cr.bodies.items()):
+        if not any(_in_scope(path, m) for m in modules) or not b['params'] or b['params'][0].get('k') != 'bind' or b['params'][0].get('n') != 'self':
+            continue
+        self_id = b['params'][0]['id']
+        origin = {}     # local id -> field of self the id was obtained from
+        for x, parents in walk(b['tree']):
+            if x.get('k') == 'let' and 'i' in x:
+                src = None
+                for y, _ in walk(x['i']):
+                    if y.get('k') == 'mcall' and y['m'] in _ID_SOURCES:
+                        f = _self_field_root(y['r'], self_id)
+                        if f:
+                            src = f
+                if src:
+                    for bb in pat_bindings(x['p']):
+                        origin[bb['id']] = src
+            if x.get('k') == 'mcall' and x['m'] in ('map', 'and_then', 'is_some_and', 'filter') and x['a'] and strip(x['a'][0]).get('k') == 'closure':
+                src = None
+                for y, _ in walk(x['r']):
+                    if y.get('k') == 'mcall' and y['m'] in _ID_SOURCES:
+                        f = _self_field_root(y['r'], self_id)
+                        if f:
+                            src = f
+                if src:
+                    for pp_ in strip(x['a'][0])['ps']:
+                        for bb in pat_bindings(pp_):
+                            origin[bb['id']] = src
+        if not origin:
+            continue
+        for x, parents in walk(b['tree']):
+            tbl = idx = None
+            if x.get('k') == 'index':
+                tbl, idx = x['e'], x['i']
+            elif x.get('k') == 'mcall' and x['m'] in ('get', 'get_mut', 'get_unchecked') and x['a']:
+                tbl, idx = x['r'], x['a'][0]
+            if tbl is None:
+                continue
+            t = strip(tbl)
+            while t.get('k') in ('addr',) or (t.get('k') == 'unary' and t.get('op') == 'deref'):
+                t = strip(t['e'])
+            if t.get('k') != 'field' or t['n'] != 'sets':
+                continue
+            f_tbl = _self_field_root(t, self_id)
+            il = strip(idx)
+            while il.get('k') in ('addr',) or (il.get('k') == 'unary' and il.get('op') == 'deref'):
+                il = strip(il['e'])
+            if il.get('k') != 'path' or il.get('res') != 'local' or il['id'] not in origin or f_tbl in (None, 'sets'):
+                continue
+            n += 1
+            ok = origin[il['id']] == f_tbl
+            rep.inst('L28', '%s: `%s.sets` indexed with an id obtained from `%s`: %s' % (path, f_tbl, origin[il['id']], ok))
+            rep.functions.add(path)
+            if not ok:
+                rep.viol('L28', path, 'foreign-class-id:%s->%s' % (origin[il['id']], f_tbl),
+                         'a class id resolved in `%s` indexes the class table of `%s`: the ids of the two union-finds differ as soon as two classes '
+                         'known to both are united (the delta then hides the pairs that are really new)' % (origin[il['id']], f_tbl), loc=cr.loc(x))
+    return n
+
+
+def check_L29(ctx, rep, scope):
+    """memo blocks `if KEYSLOT.as_ref() != Some(k) { VALSLOT = table.get(k'); KEYSLOT = Some(k''.clone()) }`: the key that is tested,
+    the key that is looked up and the key that is remembered are the same variable."""
+    cr = ctx.lib('ascent_byods_rels')
+    n = 0
+    for path, b in sorted(cr.bodies.items()):
+        if b['name'] != MERGE or not _in_scope(path, scope):
+            continue
+        for x, parents in walk(b['tree']):
+            if x.get('k') != 'if' or 'el' in x:
+                continue
+            c = strip(x['c'])
+            if c.get('k') != 'binary' or c['op'] != '!=':
+                continue
+            l, r = strip(c['l']), strip(c['r'])
+            if not (l.get('k') == 'mcall' and l['m'] == 'as_ref'):
+                continue
+            slot = chain_root(l['r'])
+            k1 = None
+            if r.get('k') == 'call' and len(r.get('a', [])) == 1:
+                k1 = chain_root(r['a'][0])
+            if slot is None or k1 is None:
+                continue
+            k2 = k3 = None
+            for y, _ in walk(x['th']):
+                if y.get('k') == 'assign':
+                    tgt = chain_root(y['l'])
+                    rhs = strip(y['r'])
+                    if tgt is not None and tgt['id'] == slot['id']:
+                        # KEYSLOT = Some(k.clone()) / Some(*k)
+                        for z, _ in walk(rhs):
+                            if z.get('k') == 'path' and z.get('res') == 'local' and z['id'] != slot['id']:
+                                k3 = z; break
+                    elif rhs.get('k') == 'mcall' and rhs['m'] in ('get', 'get_key_value') and rhs['a']:
+                        k2 = chain_root(rhs['a'][0])
+            if k2 is None or k3 is None:
+                continue
+            n += 1
+            ok = k1['id'] == k2['id'] == k3['id']
+            rep.inst('L29', '%s: memo block on `%s`: tested / looked up / remembered key = %s / %s / %s: %s' % (path, slot.get('n'), k1.get('n'), k2.get('n'), k3.get('n'), ok))
+            rep.functions.add(path)
+            if not ok:
+                rep.viol('L29', path, 'memo-key:%s:%s/%s/%s' % (slot.get('n'), k1.get('n'), k2.get('n'), k3.get('n')),
+                         'the memo `%s` is tested against `%s`, filled by a lookup of `%s` and tagged with `%s`: a stale entry answers for another key' % (
+                             slot.get('n'), k1.get('n'), k2.get('n'), k3.get('n')), loc=cr.loc(x))
+    return n
